@@ -8,6 +8,7 @@ from .engine import (Closure, Iface, PathEnd, Ptr, ReflectV, SliceV, Unsupported
 
 DESCRIPTIONS = {
     'math.Ceil/Floor/Trunc/Round': 'SMT fp.roundToIntegral RTP/RTN/RTZ/RNA (IEEE 754); concrete arguments use the host libm',
+    'math.Min/Max': 'IEEE comparison with the Go special cases (NaN propagates, -0 < +0)',
     'math.Abs/IsNaN/IsInf/Inf/NaN': 'IEEE predicates / constants',
     'reflect.ValueOf(p).Elem().SetCap(n)': 'ValueOf wraps the pointer, Elem dereferences, SetCap panics unless len <= n <= cap else sets cap; other reflect calls are unsupported',
     'sync/atomic typed values, sync.Mutex': 'sequentially consistent location per atomic value; every operation is a scheduling point; Load acquires, Store releases, Swap/Add/CompareAndSwap do both (Go memory model); Mutex Lock acquires / Unlock releases, schedules that attempt a held lock are skipped (covered by the schedule in which the attempt comes later)',
@@ -95,6 +96,30 @@ def s_isinf(eng, st, fr, fn, args, ins):
         neg = z3.And(z3.fpIsInf(x), z3.fpIsNegative(x))
         r = simp_bool(pos if sign > 0 else neg if sign < 0 else z3.fpIsInf(x))
     _ret(st, ins, r)
+
+
+def _minmax(is_min):
+    def h(eng, st, fr, fn, args, ins):
+        x, y = args
+        if eng.value_mode and (eng.vm.is_term(x) or eng.vm.is_term(y)):
+            raise Unsupported('math.Min/Max in value mode')
+        if not is_sym(x) and not is_sym(y):
+            if x != x or y != y:
+                return _ret(st, ins, float('nan'))
+            if x == 0 and y == 0:
+                neg = (math.copysign(1, x) < 0, math.copysign(1, y) < 0)
+                r = -0.0 if (any(neg) if is_min else all(neg)) else 0.0
+                return _ret(st, ins, r)
+            return _ret(st, ins, min(x, y) if is_min else max(x, y))
+        a, b = fp_term(x, 64), fp_term(y, 64)
+        nan = z3.fpNaN(F64)
+        if is_min:
+            pick = z3.If(z3.fpLT(a, b), a, z3.If(z3.fpLT(b, a), b, z3.If(z3.fpIsNegative(a), a, b)))
+        else:
+            pick = z3.If(z3.fpGT(a, b), a, z3.If(z3.fpGT(b, a), b, z3.If(z3.fpIsNegative(a), b, a)))
+        r = z3.If(z3.Or(z3.fpIsNaN(a), z3.fpIsNaN(b)), nan, pick)
+        _ret(st, ins, simp_fp(r, 64))
+    return h
 
 
 def s_inf(eng, st, fr, fn, args, ins):
@@ -252,6 +277,8 @@ TABLE = {
     'math.Trunc': _round(z3.RTZ(), _py_trunc),
     'math.Round': _round(z3.RNA(), _py_round),
     'math.Abs': s_abs,
+    'math.Min': _minmax(True),
+    'math.Max': _minmax(False),
     'math.IsNaN': s_isnan,
     'math.IsInf': s_isinf,
     'math.Inf': s_inf,
